@@ -67,6 +67,23 @@ class Dispatch:
         self.fname = fname
         self.tree = ast.parse(src, filename=fname)
         self.funcs = {n.name: n for n in self.tree.body if isinstance(n, ast.FunctionDef)}
+        # module-level string constants assigned exactly once (NAME = 'literal'): usable where a literal is expected
+        seen = {}
+        for n in ast.walk(self.tree):
+            tg = []
+            if isinstance(n, ast.Assign):
+                tg = [t for t in n.targets]
+            elif isinstance(n, (ast.AnnAssign, ast.AugAssign)):
+                tg = [n.target]
+            for t in tg:
+                for nm in ast.walk(t):
+                    if isinstance(nm, ast.Name):
+                        seen[nm.id] = seen.get(nm.id, 0) + 1
+        self.consts = {}
+        for n in self.tree.body:
+            if isinstance(n, ast.Assign) and len(n.targets) == 1 and isinstance(n.targets[0], ast.Name) \
+                    and isinstance(n.value, ast.Constant) and isinstance(n.value.value, str) and seen.get(n.targets[0].id) == 1:
+                self.consts[n.targets[0].id] = n.value.value
 
     def where(self, node):
         return "%s:%d" % (self.fname, getattr(node, "lineno", 0))
@@ -83,9 +100,11 @@ class Dispatch:
             return True
         return False
 
-    @staticmethod
-    def is_lit(e):
-        return isinstance(e, ast.Constant) and isinstance(e.value, str)
+    def is_lit(self, e):
+        return (isinstance(e, ast.Constant) and isinstance(e.value, str)) or (isinstance(e, ast.Name) and e.id in self.consts)
+
+    def lit(self, e):
+        return e.value if isinstance(e, ast.Constant) else self.consts[e.id]
 
     def test(self, e, names, args_name):
         """-> Coq boolean expression over `h`"""
@@ -98,9 +117,9 @@ class Dispatch:
             op, l, r = e.ops[0], e.left, e.comparators[0]
             if isinstance(op, (ast.Eq, ast.NotEq)):
                 if self.is_subject(l, names, args_name) and self.is_lit(r):
-                    lit = r.value
+                    lit = self.lit(r)
                 elif self.is_subject(r, names, args_name) and self.is_lit(l):
-                    lit = l.value
+                    lit = self.lit(l)
                 else:
                     raise Refuse("%s: unsupported comparison %s" % (self.where(e), self.text(e)))
                 t = "(seqb h %s (* '%s' *))" % (strlit(lit), cmt(lit))
@@ -108,11 +127,11 @@ class Dispatch:
             if isinstance(op, (ast.In, ast.NotIn)):
                 if self.is_subject(l, names, args_name) and isinstance(r, (ast.Set, ast.List, ast.Tuple)) \
                         and all(self.is_lit(x) for x in r.elts):
-                    lits = [x.value for x in r.elts]
+                    lits = [self.lit(x) for x in r.elts]
                     t = "(smem h [%s] (* %s *))" % ("; ".join(strlit(x) for x in lits),
                                                      cmt(", ".join("'%s'" % x for x in lits)))
                 elif self.is_lit(l) and self.is_subject(r, names, args_name):
-                    t = "(sinfix %s h (* '%s' in h *))" % (strlit(l.value), cmt(l.value))
+                    t = "(sinfix %s h (* '%s' in h *))" % (strlit(self.lit(l)), cmt(self.lit(l)))
                 else:
                     raise Refuse("%s: unsupported membership test %s" % (self.where(e), self.text(e)))
                 return t if isinstance(op, ast.In) else "(negb %s)" % t
@@ -127,15 +146,17 @@ class Dispatch:
         if len(params) < 3:
             raise Refuse("%s: numba_mi parameters %s not recognised" % (self.where(f), params))
         subj = SUBJECT if SUBJECT in params else params[2]     # the heuristic name is the third parameter
-        flag_expr = None
-        flag_var = None
-        for st in ast.walk(f):
-            if isinstance(st, ast.Assign) and len(st.targets) == 1 and isinstance(st.targets[0], ast.Name) \
-                    and st.targets[0].id == "cardinality_correction":
-                if flag_expr is not None:
-                    raise Refuse("%s: cardinality_correction assigned twice" % self.where(st))
-                flag_expr = st.value
-                flag_var = "cardinality_correction"
+        def local_def(name):
+            """the unique `name = <expr>` of numba_mi (a local flag variable, whatever it is called)"""
+            found = None
+            for st in ast.walk(f):
+                tg = st.targets if isinstance(st, ast.Assign) else [st.target] if isinstance(st, (ast.AnnAssign, ast.AugAssign)) else []
+                if any(isinstance(nm, ast.Name) and nm.id == name for t in tg for nm in ast.walk(t)):
+                    if found is not None or not isinstance(st, ast.Assign) or len(st.targets) != 1 \
+                            or not isinstance(st.targets[0], ast.Name):
+                        raise Refuse("%s: %s is not assigned exactly once by a plain assignment" % (self.where(st), name))
+                    found = st.value
+            return found
         calls = [c for c in ast.walk(f) if isinstance(c, ast.Call) and
                  ((isinstance(c.func, ast.Attribute) and c.func.attr == "mutual_info_estimator_numba") or
                   (isinstance(c.func, ast.Name) and c.func.id == "mutual_info_estimator_numba"))]
@@ -151,8 +172,10 @@ class Dispatch:
         if passed is None:
             # the estimator's default is False
             return "false", "default (no flag passed)"
-        if isinstance(passed, ast.Name) and passed.id == flag_var and flag_expr is not None:
-            e = flag_expr
+        if isinstance(passed, ast.Name) and passed.id != subj and passed.id not in params and local_def(passed.id) is not None:
+            e = local_def(passed.id)
+            if isinstance(e, ast.Constant) and isinstance(e.value, bool):
+                return ("true" if e.value else "false"), self.text(e)
         elif isinstance(passed, ast.Constant) and isinstance(passed.value, bool):
             return ("true" if passed.value else "false"), self.text(passed)
         else:
